@@ -43,8 +43,8 @@ SPEC = {
     "harness_timeout": 9000,
 }
 MUTATIONS = """
-FIX PHASE: /repo 61d5158 (RuntimeHash also digests the NUL-terminated destination name of every runtime file) and
-/repo 1a858a8 (Test.NoOutput in the runtime rule hash).  Re-introducing either defect on a scratch copy:
+FIX PHASE: /repo 168aeab (RuntimeHash also digests the NUL-terminated destination name of every runtime file) and
+/repo d11a3f4 (Test.NoOutput in the runtime rule hash).  Re-introducing either defect on a scratch copy:
 f) drop the two name writes again -> VIOLATION runtime-hash-omits-file-names + runtime-rule-hash-unframed (both classes are "fixed":
    corpus/C11/fixed-*.ops fail the fresh-run oracle), C11_facts_ok / facts_names no longer check (23/26).
 g) drop hashBool(h, target.Test.NoOutput) -> VIOLATION runtime-hash-omits-no-test-output, facts_no_output fails (24/26).
